@@ -1292,7 +1292,6 @@ class BDD(dd._abc.BDD[_Ref]):
         cache[u] = r
         return r
 
-    @_try_to_reorder
     def quantify(
             self,
             u:
@@ -1314,7 +1313,23 @@ class BDD(dd._abc.BDD[_Ref]):
             then quantify `qvars` universally,
             else existentially.
         """
-        qvars = self._map_to_level(set(qvars))
+        # read the iterable once: the computation
+        # is repeated after a reordering
+        return self._quantify_set(
+            u, set(qvars), forall)
+
+    @_try_to_reorder
+    def _quantify_set(
+            self,
+            u:
+                _Ref,
+            qvars:
+                set[_VariableName],
+            forall:
+                _Yes
+            ) -> _Ref:
+        """Quantify the variables in the set `qvars`."""
+        qvars = self._map_to_level(qvars)
         cache = dict()
         ordvar = sorted(qvars)
         j = 0
@@ -2275,7 +2290,6 @@ class BDD(dd._abc.BDD[_Ref]):
                 f'`self` ({self!r})')
         return i
 
-    @_try_to_reorder
     def cube(
             self,
             dvars:
@@ -2283,10 +2297,21 @@ class BDD(dd._abc.BDD[_Ref]):
                 _abc.Iterable[
                     _VariableName]
             ) -> _Ref:
+        # read the iterable once: the computation
+        # is repeated after a reordering
         if not isinstance(dvars, dict):
             dvars = {
                 k: True
                 for k in dvars}
+        return self._cube(dvars)
+
+    @_try_to_reorder
+    def _cube(
+            self,
+            dvars:
+                _Assignment
+            ) -> _Ref:
+        """Return conjunction of literals in `dvars`."""
         # `dvars` keys can be var names or levels
         r = self.true
         for var, val in dvars.items():
